@@ -77,59 +77,56 @@ with asg_stmt (s : stmt) : list string :=
 Definition is_simple_constant (e : expr) : bool :=
   match e with EInt _ | EFlt _ | EBool _ | EStr _ | ENull => true | _ => false end.
 
-Section LP.
-Variable open : bool.            (* session unit *)
-Variable bs : list string.       (* binder census of the whole program *)
-
-Definition known (deferred : bool) (ss : scopes) (x : string) : option expr :=
+(* [open]: session unit; [bs]: binder census of the whole program *)
+Definition known (open : bool) (deferred : bool) (ss : scopes) (x : string) : option expr :=
   if open && deferred then ss_get_above x ss else ss_get x ss.
 
-Fixpoint lp_expr (deferred : bool) (ss : scopes) (e : expr) {struct e} : expr * scopes :=
+Fixpoint lp_expr (open : bool) (bs : list string) (deferred : bool) (ss : scopes) (e : expr) {struct e} : expr * scopes :=
   match e with
-  | EVar x => (match known deferred ss x with Some k => k | None => e end, ss)
+  | EVar x => (match known open deferred ss x with Some k => k | None => e end, ss)
   | EBin op a b =>
-      let '(a', s1) := lp_expr deferred ss a in
-      let '(b', s2) := lp_expr deferred s1 b in (EBin op a' b', s2)
-  | EUn op a => let '(a', s1) := lp_expr deferred ss a in (EUn op a', s1)
+      let '(a', s1) := lp_expr open bs deferred ss a in
+      let '(b', s2) := lp_expr open bs deferred s1 b in (EBin op a' b', s2)
+  | EUn op a => let '(a', s1) := lp_expr open bs deferred ss a in (EUn op a', s1)
   | EAnd a b =>
-      let '(a', s1) := lp_expr deferred ss a in
-      let '(b', s2) := lp_expr deferred s1 b in (EAnd a' b', s2)
+      let '(a', s1) := lp_expr open bs deferred ss a in
+      let '(b', s2) := lp_expr open bs deferred s1 b in (EAnd a' b', s2)
   | EOr a b =>
-      let '(a', s1) := lp_expr deferred ss a in
-      let '(b', s2) := lp_expr deferred s1 b in (EOr a' b', s2)
+      let '(a', s1) := lp_expr open bs deferred ss a in
+      let '(b', s2) := lp_expr open bs deferred s1 b in (EOr a' b', s2)
   | ECall f args =>
-      let '(f', s1) := lp_expr deferred ss f in
+      let '(f', s1) := lp_expr open bs deferred ss f in
       let '(args', s2) :=
         (fix go (l : list expr) (s : scopes) : list expr * scopes :=
            match l with
            | [] => ([], s)
-           | x :: r => let '(x', sa) := lp_expr deferred s x in
+           | x :: r => let '(x', sa) := lp_expr open bs deferred s x in
                        let '(r', sb) := go r sa in (x' :: r', sb)
            end) args s1 in
       (ECall f' args', s2)
   | EAssign x a =>
-      let '(a', s1) := lp_expr deferred ss a in (EAssign x a', ss_inval x s1)
+      let '(a', s1) := lp_expr open bs deferred ss a in (EAssign x a', ss_inval x s1)
   | EIf c a b =>
-      let '(c', s1) := lp_expr deferred ss c in
-      let '(a', s2) := lp_expr deferred s1 a in
-      let '(b', s3) := lp_expr deferred s2 b in (EIf c' a' b', s3)
+      let '(c', s1) := lp_expr open bs deferred ss c in
+      let '(a', s2) := lp_expr open bs deferred s1 a in
+      let '(b', s3) := lp_expr open bs deferred s2 b in (EIf c' a' b', s3)
   | ELam ps body =>
       let s0 := fold_left (fun s p => ss_put (fst p) None s) ps (ss_push ss) in
       let '(body', s1) :=
         (fix go (l : list stmt) (s : scopes) : list stmt * scopes :=
            match l with
            | [] => ([], s)
-           | x :: r => let '(x', sa) := lp_stmt true s x in
+           | x :: r => let '(x', sa) := lp_stmt open bs true s x in
                        let '(r', sb) := go r sa in (x' :: r', sb)
            end) body s0 in
       (ELam ps body', ss_pop s1)
-  | EMember o m => let '(o', s1) := lp_expr deferred ss o in (EMember o' m, s1)
+  | EMember o m => let '(o', s1) := lp_expr open bs deferred ss o in (EMember o' m, s1)
   | EArr es =>
       let '(es', s1) :=
         (fix go (l : list expr) (s : scopes) : list expr * scopes :=
            match l with
            | [] => ([], s)
-           | x :: r => let '(x', sa) := lp_expr deferred s x in
+           | x :: r => let '(x', sa) := lp_expr open bs deferred s x in
                        let '(r', sb) := go r sa in (x' :: r', sb)
            end) es ss in
       (EArr es', s1)
@@ -138,98 +135,97 @@ Fixpoint lp_expr (deferred : bool) (ss : scopes) (e : expr) {struct e} : expr * 
         (fix go (l : list expr) (s : scopes) : list expr * scopes :=
            match l with
            | [] => ([], s)
-           | x :: r => let '(x', sa) := lp_expr deferred s x in
+           | x :: r => let '(x', sa) := lp_expr open bs deferred s x in
                        let '(r', sb) := go r sa in (x' :: r', sb)
            end) es ss in
       (EVec es', s1)
-  | EArrSized n => let '(n', s1) := lp_expr deferred ss n in (EArrSized n', s1)
+  | EArrSized n => let '(n', s1) := lp_expr open bs deferred ss n in (EArrSized n', s1)
   | EIdx a i =>
-      let '(a', s1) := lp_expr deferred ss a in
-      let '(i', s2) := lp_expr deferred s1 i in (EIdx a' i', s2)
+      let '(a', s1) := lp_expr open bs deferred ss a in
+      let '(i', s2) := lp_expr open bs deferred s1 i in (EIdx a' i', s2)
   | EIdxSet a i v =>
-      let '(a', s1) := lp_expr deferred ss a in
-      let '(i', s2) := lp_expr deferred s1 i in
-      let '(v', s3) := lp_expr deferred s2 v in (EIdxSet a' i' v', s3)
+      let '(a', s1) := lp_expr open bs deferred ss a in
+      let '(i', s2) := lp_expr open bs deferred s1 i in
+      let '(v', s3) := lp_expr open bs deferred s2 v in (EIdxSet a' i' v', s3)
   | EFmt parts =>
       let '(parts', s1) :=
         (fix go (l : list fpart) (s : scopes) : list fpart * scopes :=
            match l with
            | [] => ([], s)
-           | PExpr x :: r => let '(x', sa) := lp_expr deferred s x in
+           | PExpr x :: r => let '(x', sa) := lp_expr open bs deferred s x in
                              let '(r', sb) := go r sa in (PExpr x' :: r', sb)
            | q :: r => let '(r', sb) := go r s in (q :: r', sb)
            end) parts ss in
       (EFmt parts', s1)
   | EInt _ | EFlt _ | EBool _ | EStr _ | ENull | EOther _ => (e, ss)
   end
-with lp_stmt (deferred : bool) (ss : scopes) (s : stmt) {struct s} : stmt * scopes :=
+with lp_stmt (open : bool) (bs : list string) (deferred : bool) (ss : scopes) (s : stmt) {struct s} : stmt * scopes :=
   match s with
   | SLet x m e =>
-      let '(e1, s1) := lp_expr deferred ss e in
+      let '(e1, s1) := lp_expr open bs deferred ss e in
       let e2 := fold_expr e1 in
       let rebindable := Nat.eqb (length s1) 1 && negb (bound_once bs x) in
       if negb m && is_simple_constant e2 && negb rebindable
       then (SLet x m e2, ss_put x (Some e2) s1)
       else (SLet x m e2, ss_put x None s1)
-  | SExpr e => let '(e', s1) := lp_expr deferred ss e in (SExpr e', s1)
+  | SExpr e => let '(e', s1) := lp_expr open bs deferred ss e in (SExpr e', s1)
   | SBlock b =>
       let '(b', s1) :=
         (fix go (l : list stmt) (s : scopes) : list stmt * scopes :=
            match l with
            | [] => ([], s)
-           | x :: r => let '(x', sa) := lp_stmt deferred s x in
+           | x :: r => let '(x', sa) := lp_stmt open bs deferred s x in
                        let '(r', sb) := go r sa in (x' :: r', sb)
            end) b (ss_push ss) in
       (SBlock b', ss_pop s1)
   | SIf c t e =>
-      let '(c', s1) := lp_expr deferred ss c in
-      let '(t', s2) := lp_stmt deferred (ss_push s1) t in
+      let '(c', s1) := lp_expr open bs deferred ss c in
+      let '(t', s2) := lp_stmt open bs deferred (ss_push s1) t in
       let s2' := ss_pop s2 in
       match e with
-      | Some el => let '(el', s3) := lp_stmt deferred (ss_push s2') el in (SIf c' t' (Some el'), ss_pop s3)
+      | Some el => let '(el', s3) := lp_stmt open bs deferred (ss_push s2') el in (SIf c' t' (Some el'), ss_pop s3)
       | None => (SIf c' t' None, s2')
       end
   | SWhile c b =>
       let s0 := fold_left (fun s x => ss_inval x s) (asg_stmt b) ss in
-      let '(c', s1) := lp_expr deferred s0 c in
-      let '(b', s2) := lp_stmt deferred (ss_push s1) b in
+      let '(c', s1) := lp_expr open bs deferred s0 c in
+      let '(b', s2) := lp_stmt open bs deferred (ss_push s1) b in
       (SWhile c' b', ss_pop s2)
   | SFor x lo hi incl step b =>
-      let '(lo', s1) := lp_expr deferred ss lo in
-      let '(hi', s2) := lp_expr deferred s1 hi in
+      let '(lo', s1) := lp_expr open bs deferred ss lo in
+      let '(hi', s2) := lp_expr open bs deferred s1 hi in
       let '(step', s3) :=
         match step with
-        | Some k => let '(k', sk) := lp_expr deferred s2 k in (Some k', sk)
+        | Some k => let '(k', sk) := lp_expr open bs deferred s2 k in (Some k', sk)
         | None => (None, s2)
         end in
       let s4 := fold_left (fun s y => ss_inval y s) (asg_stmt b) s3 in
-      let '(b', s5) := lp_stmt deferred (ss_put x None (ss_push s4)) b in
+      let '(b', s5) := lp_stmt open bs deferred (ss_put x None (ss_push s4)) b in
       (SFor x lo' hi' incl step' b', ss_pop s5)
   | SForEach x e b =>
-      let '(e', s1) := lp_expr deferred ss e in
+      let '(e', s1) := lp_expr open bs deferred ss e in
       let s2 := fold_left (fun s y => ss_inval y s) (asg_stmt b) s1 in
-      let '(b', s3) := lp_stmt deferred (ss_put x None (ss_push s2)) b in
+      let '(b', s3) := lp_stmt open bs deferred (ss_put x None (ss_push s2)) b in
       (SForEach x e' b', ss_pop s3)
-  | SRet (Some e) => let '(e', s1) := lp_expr deferred ss e in (SRet (Some e'), s1)
+  | SRet (Some e) => let '(e', s1) := lp_expr open bs deferred ss e in (SRet (Some e'), s1)
   | SFun n ps body d =>
       let s0 := fold_left (fun s p => ss_put (fst p) None s) ps (ss_push (ss_put n None ss)) in
       let '(body', s1) :=
         (fix go (l : list stmt) (s : scopes) : list stmt * scopes :=
            match l with
            | [] => ([], s)
-           | x :: r => let '(x', sa) := lp_stmt true s x in
+           | x :: r => let '(x', sa) := lp_stmt open bs true s x in
                        let '(r', sb) := go r sa in (x' :: r', sb)
            end) body s0 in
       (SFun n ps body' d, ss_pop s1)
   | SRet None | SBreak | SCont | SOther _ => (s, ss)
   end.
 
-Fixpoint lp_top (ss : scopes) (l : list stmt) : list stmt :=
+Fixpoint lp_top (open : bool) (bs : list string) (ss : scopes) (l : list stmt) : list stmt :=
   match l with
   | [] => []
-  | s :: r => let '(s', s1) := lp_stmt false ss s in s' :: lp_top s1 r
+  | s :: r => let '(s', s1) := lp_stmt open bs false ss s in s' :: lp_top open bs s1 r
   end.
-End LP.
 
 Definition lprop_program (open : bool) (p : program) : program :=
   lp_top open (binders_block p) [[]] p.
